@@ -126,6 +126,37 @@ def u_server_headers(c):
                  status[9:10] == b"4" and "sec-websocket-accept" not in hdrs and ("open",) not in r["events"] and not any(e[0] == "message" for e in r["events"]))
 
 
+@unit("C17", "server.origin-ports", [(M, "WebSocketHandler.check_origin"), (M, "WebSocketHandler.get")],
+      bounded="finite case analysis: 4 Host spellings (no port, :80, :443, :8080) x 9 origins over http / https / wss with and without explicit ports")
+def u_origin_ports(c):
+    """'accepts only an Origin whose host and port equal the Host header', ports included: an origin whose port (written out, or the default of its scheme) differs from the
+    port the Host header names is refused - https://example.com:443 is not example.com:80.  Where one side leaves a default port out and the other writes it, either answer
+    is allowed (the statement does not say whether 'example.com' and 'example.com:80' are equal); identical spellings are accepted."""
+    import tornado.websocket as WS
+    from pyvc.standin import wsharness as H
+    host = c.choose("Host", [b"example.com", b"example.com:80", b"example.com:443", b"example.com:8080"])
+    origin = c.choose("Origin", ["http://example.com", "http://example.com:80", "https://example.com", "https://example.com:443", "wss://example.com:443", "http://example.com:8080",
+                                 "https://example.com:8080", "http://example.com:81", "http://example.org:80"])
+    req = build_request(host=host, origin=origin)
+    r = H.session([], request=req, handler_attrs={"check_origin": WS.WebSocketHandler.check_origin})
+    status, hdrs = parse_head(r["head"])
+    got101 = status.startswith(b"HTTP/1.1 101")
+    scheme, rest = origin.split("://", 1)
+    ohost, _, oport = rest.partition(":")
+    hhost, _, hport = host.decode().partition(":")
+    default = {"http": "80", "ws": "80", "https": "443", "wss": "443"}[scheme]
+    if ohost != hhost:
+        verdict = "refuse"
+    elif hport:
+        verdict = "refuse" if (oport or default) != hport else ("accept" if rest == host.decode() else "either")
+    else:
+        verdict = "accept" if not oport else ("either" if oport in ("80", "443") else "refuse")
+    c.cover("origin-ports/" + verdict)
+    c.values = {"Host": host.decode(), "Origin": origin, "status": status.decode("latin1"), "expected": verdict}
+    c.oblige("post/an-origin-on-another-host-or-port-is-refused", verdict != "refuse" or (not got101 and status[9:10] == b"4"))
+    c.oblige("post/the-same-host-and-port-is-accepted", verdict != "accept" or got101)
+
+
 def advertised(params):
     """RFC 7692 7.1: what a response's parameters mean for (server->client direction, client->server direction): (takeover, window bits) each"""
     s2c = ("server_no_context_takeover" not in params, int(params.get("server_max_window_bits") or 15))
